@@ -2,3 +2,471 @@
 // SPDX-License-Identifier: Apache-2.0
 
 //! verification hook drivers: recv
+//!
+//! Drives the real `DefaultStreamManager` (stream manager + stream controller + `StreamImpl` /
+//! `ReceiveStream` + `IncomingConnectionFlowController` over `s2n_quic_core::buffer::Reassembler`)
+//! through its public `stream::Manager` API with peer frames, application calls, transmissions
+//! and ack/loss notifications given as plain integers. Nothing here is called by production code.
+
+use crate::{
+    connection::{InternalConnectionId, InternalConnectionIdGenerator},
+    contexts::ConnectionApiCallContext,
+    stream::{DefaultStreamManager, Manager as _},
+    transmission,
+    wakeup_queue::{WakeupHandle, WakeupQueue},
+};
+use core::{
+    task::{Context, Poll},
+    time::Duration,
+};
+use s2n_codec::{DecoderBufferMut, EncoderBuffer, EncoderValue};
+use s2n_quic_core::{
+    application, connection, endpoint,
+    event::{self, IntoEvent},
+    frame::{
+        self, ack_elicitation::AckElicitation, stream::StreamRef, Frame, FrameMut, FrameTrait,
+    },
+    packet::number::{PacketNumber, PacketNumberRange, PacketNumberSpace},
+    stream::{ops, StreamId, StreamType},
+    time::Timestamp,
+    transport::{
+        self,
+        parameters::{InitialFlowControlLimits, InitialStreamLimits},
+    },
+    varint::VarInt,
+};
+
+/// Flow-control / stream-count limits one endpoint advertises in its transport parameters
+#[derive(Clone, Copy, Debug)]
+pub struct FlowLimits {
+    pub max_data_bidi_local: u64,
+    pub max_data_bidi_remote: u64,
+    pub max_data_uni: u64,
+    pub max_data: u64,
+    pub max_bidi_streams: u64,
+    pub max_uni_streams: u64,
+}
+
+impl FlowLimits {
+    fn build(&self) -> InitialFlowControlLimits {
+        let v = |x: u64| VarInt::new(x).expect("limit below 2^62");
+        InitialFlowControlLimits {
+            stream_limits: InitialStreamLimits {
+                max_data_bidi_local: v(self.max_data_bidi_local),
+                max_data_bidi_remote: v(self.max_data_bidi_remote),
+                max_data_uni: v(self.max_data_uni),
+            },
+            max_data: v(self.max_data),
+            max_open_remote_bidirectional_streams: v(self.max_bidi_streams),
+            max_open_remote_unidirectional_streams: v(self.max_uni_streams),
+        }
+    }
+}
+
+/// A frame the manager wrote: `(kind, a, b)`
+///   MAX_DATA            -> (0x10, value, 0)
+///   MAX_STREAM_DATA     -> (0x11, stream id, value)
+///   MAX_STREAMS         -> (0x12 bidi / 0x13 uni, value, 0)
+///   STOP_SENDING        -> (0x05, stream id, error code)
+///   anything else       -> (first byte of the encoding, 0, 0)
+pub type Written = (u64, u64, u64);
+
+struct Recorder {
+    now: Timestamp,
+    packet_number: PacketNumber,
+    local: endpoint::Type,
+    frames: Vec<Written>,
+}
+
+impl Recorder {
+    fn record<F: EncoderValue>(&mut self, frame: &F) -> Option<PacketNumber> {
+        let mut bytes = vec![0u8; frame.encoding_size()];
+        frame.encode(&mut EncoderBuffer::new(&mut bytes[..]));
+        let first = bytes[0] as u64;
+        let w = match DecoderBufferMut::new(&mut bytes[..]).decode::<FrameMut>() {
+            Ok((Frame::MaxData(f), _)) => (0x10, f.maximum_data.as_u64(), 0),
+            Ok((Frame::MaxStreamData(f), _)) => {
+                (0x11, f.stream_id.as_u64(), f.maximum_stream_data.as_u64())
+            }
+            Ok((Frame::MaxStreams(f), _)) => (
+                if f.stream_type == StreamType::Bidirectional {
+                    0x12
+                } else {
+                    0x13
+                },
+                f.maximum_streams.as_u64(),
+                0,
+            ),
+            Ok((Frame::StopSending(f), _)) => (
+                0x05,
+                f.stream_id.as_u64(),
+                f.application_error_code.as_u64(),
+            ),
+            _ => (first, 0, 0),
+        };
+        self.frames.push(w);
+        Some(self.packet_number)
+    }
+}
+
+impl transmission::Writer for Recorder {
+    fn current_time(&self) -> Timestamp {
+        self.now
+    }
+
+    fn transmission_constraint(&self) -> transmission::Constraint {
+        transmission::Constraint::None
+    }
+
+    fn transmission_mode(&self) -> transmission::Mode {
+        transmission::Mode::Normal
+    }
+
+    fn remaining_capacity(&self) -> usize {
+        1 << 20
+    }
+
+    fn write_frame<F>(&mut self, frame: &F) -> Option<PacketNumber>
+    where
+        F: EncoderValue + FrameTrait,
+        for<'frame> &'frame F: IntoEvent<event::builder::Frame>,
+    {
+        self.record(frame)
+    }
+
+    fn write_fitted_frame<F>(&mut self, frame: &F) -> PacketNumber
+    where
+        F: EncoderValue + FrameTrait,
+        for<'frame> &'frame F: IntoEvent<event::builder::Frame>,
+    {
+        self.record(frame).expect("frame should fit")
+    }
+
+    fn write_frame_forced<F>(&mut self, frame: &F) -> Option<PacketNumber>
+    where
+        F: EncoderValue + FrameTrait,
+        for<'frame> &'frame F: IntoEvent<event::builder::Frame>,
+    {
+        self.record(frame)
+    }
+
+    fn ack_elicitation(&self) -> AckElicitation {
+        AckElicitation::Eliciting
+    }
+
+    fn packet_number(&self) -> PacketNumber {
+        self.packet_number
+    }
+
+    fn local_endpoint_type(&self) -> endpoint::Type {
+        self.local
+    }
+
+    fn header_len(&self) -> usize {
+        0
+    }
+
+    fn tag_len(&self) -> usize {
+        0
+    }
+}
+
+fn pn(n: u64) -> PacketNumber {
+    PacketNumberSpace::ApplicationData.new_packet_number(VarInt::new(n).expect("packet number"))
+}
+
+fn ep(is_server: bool) -> endpoint::Type {
+    if is_server {
+        endpoint::Type::Server
+    } else {
+        endpoint::Type::Client
+    }
+}
+
+fn ty(bidi: bool) -> StreamType {
+    if bidi {
+        StreamType::Bidirectional
+    } else {
+        StreamType::Unidirectional
+    }
+}
+
+/// The id of the `n`-th stream of the given initiator and direction
+pub fn stream_id(initiator_is_server: bool, bidi: bool, n: u64) -> Option<u64> {
+    StreamId::nth(ep(initiator_is_server), ty(bidi), n).map(|id| id.as_varint().as_u64())
+}
+
+/// What the application sees when it reads
+#[derive(Debug)]
+pub enum Read {
+    /// bytes handed to the application and whether the stream reported `Finished`
+    Data(Vec<u8>, bool),
+    /// the request failed with a stream error (reset, connection closed, unknown stream ...)
+    Error,
+}
+
+pub struct RxDriver {
+    manager: DefaultStreamManager,
+    _queue: WakeupQueue<InternalConnectionId>,
+    handle: WakeupHandle<InternalConnectionId>,
+    local: endpoint::Type,
+    now: Timestamp,
+    next_pn: u64,
+}
+
+fn code(err: transport::Error) -> u64 {
+    err.code.as_u64()
+}
+
+impl RxDriver {
+    /// `local` are the limits this endpoint advertises (they bound what the peer may send),
+    /// `peer` the limits the peer advertises.
+    pub fn new(local_is_server: bool, local: FlowLimits, peer: FlowLimits) -> Self {
+        let limits = connection::limits::Limits::default()
+            .with_max_open_local_bidirectional_streams(1000)
+            .unwrap()
+            .with_max_open_local_unidirectional_streams(1000)
+            .unwrap();
+        let manager = DefaultStreamManager::new(
+            &limits,
+            ep(local_is_server),
+            local.build(),
+            peer.build(),
+            Duration::from_millis(100),
+        );
+        let queue = WakeupQueue::new();
+        let handle = queue.create_wakeup_handle(InternalConnectionIdGenerator::new().generate_id());
+        Self {
+            manager,
+            _queue: queue,
+            handle,
+            local: ep(local_is_server),
+            now: unsafe { Timestamp::from_duration(Duration::from_secs(10)) },
+            next_pn: 0,
+        }
+    }
+
+    /// Moves the driver's clock (only the stream controller's MAX_STREAMS refill looks at it)
+    pub fn advance(&mut self, micros: u64) {
+        self.now += Duration::from_micros(micros);
+    }
+
+    fn vi(v: u64) -> VarInt {
+        VarInt::new(v).expect("value below 2^62")
+    }
+
+    /// STREAM frame; `Err(code)` is the transport error code the frame is rejected with
+    pub fn on_stream(&mut self, sid: u64, offset: u64, data: &[u8], fin: bool) -> Result<(), u64> {
+        let frame = StreamRef {
+            stream_id: Self::vi(sid),
+            offset: Self::vi(offset),
+            is_last_frame: false,
+            is_fin: fin,
+            data,
+        };
+        self.manager.on_data(&frame).map_err(code)
+    }
+
+    pub fn on_reset_stream(&mut self, sid: u64, error: u64, final_size: u64) -> Result<(), u64> {
+        self.manager
+            .on_reset_stream(&frame::ResetStream {
+                stream_id: Self::vi(sid),
+                application_error_code: Self::vi(error),
+                final_size: Self::vi(final_size),
+            })
+            .map_err(code)
+    }
+
+    pub fn on_stream_data_blocked(&mut self, sid: u64, limit: u64) -> Result<(), u64> {
+        self.manager
+            .on_stream_data_blocked(&frame::StreamDataBlocked {
+                stream_id: Self::vi(sid),
+                stream_data_limit: Self::vi(limit),
+            })
+            .map_err(code)
+    }
+
+    pub fn on_max_stream_data(&mut self, sid: u64, value: u64) -> Result<(), u64> {
+        self.manager
+            .on_max_stream_data(&frame::MaxStreamData {
+                stream_id: Self::vi(sid),
+                maximum_stream_data: Self::vi(value),
+            })
+            .map_err(code)
+    }
+
+    pub fn on_stop_sending(&mut self, sid: u64, error: u64) -> Result<(), u64> {
+        self.manager
+            .on_stop_sending(&frame::StopSending {
+                stream_id: Self::vi(sid),
+                application_error_code: Self::vi(error),
+            })
+            .map_err(code)
+    }
+
+    pub fn on_max_streams(&mut self, bidi: bool, value: u64) -> Result<(), u64> {
+        self.manager
+            .on_max_streams(&frame::MaxStreams {
+                stream_type: ty(bidi),
+                maximum_streams: Self::vi(value),
+            })
+            .map_err(code)
+    }
+
+    pub fn on_data_blocked(&mut self, limit: u64) -> Result<(), u64> {
+        self.manager
+            .on_data_blocked(frame::DataBlocked {
+                data_limit: Self::vi(limit),
+            })
+            .map_err(code)
+    }
+
+    pub fn on_streams_blocked(&mut self, bidi: bool, limit: u64) -> Result<(), u64> {
+        self.manager
+            .on_streams_blocked(&frame::StreamsBlocked {
+                stream_type: ty(bidi),
+                stream_limit: Self::vi(limit),
+            })
+            .map_err(code)
+    }
+
+    /// The application reads at most `max` bytes (as many `poll_request`s as it takes)
+    pub fn read(&mut self, sid: u64, max: usize) -> Read {
+        let id = StreamId::from_varint(Self::vi(sid));
+        let mut out = vec![];
+        let mut finished = false;
+        let mut remaining = max;
+        loop {
+            let mut chunks: [bytes::Bytes; 8] = Default::default();
+            let mut request = ops::Request::default();
+            request.receive(&mut chunks).with_high_watermark(remaining);
+            let mut ctx = ConnectionApiCallContext::from_wakeup_handle(&self.handle);
+            let res = self.manager.poll_request(id, &mut ctx, &mut request, None);
+            match res {
+                Ok(response) => {
+                    let rx = response.rx.expect("rx response");
+                    let n = rx.bytes.consumed;
+                    let consumed_chunks = rx.chunks.consumed;
+                    let status_finished = rx.status.is_finished();
+                    drop(request);
+                    let mut got = 0;
+                    for c in chunks.iter().take(consumed_chunks) {
+                        got += c.len();
+                        out.extend_from_slice(c);
+                    }
+                    assert_eq!(got, n, "bytes.consumed equals the chunk lengths");
+                    remaining -= n;
+                    if status_finished {
+                        finished = true;
+                        break;
+                    }
+                    if n == 0 || remaining == 0 {
+                        break;
+                    }
+                }
+                Err(_) => {
+                    if out.is_empty() {
+                        return Read::Error;
+                    }
+                    break;
+                }
+            }
+        }
+        Read::Data(out, finished)
+    }
+
+    /// The application asks the peer to stop sending; false if the request failed
+    pub fn stop_sending(&mut self, sid: u64, error: u64) -> bool {
+        let id = StreamId::from_varint(Self::vi(sid));
+        let mut request = ops::Request::default();
+        request.stop_sending(application::Error::new(error).expect("application error code"));
+        let mut ctx = ConnectionApiCallContext::from_wakeup_handle(&self.handle);
+        self.manager
+            .poll_request(id, &mut ctx, &mut request, None)
+            .is_ok()
+    }
+
+    /// The application resets / finishes the sending half (so that a stream can be finalized)
+    pub fn reset_send(&mut self, sid: u64, error: u64) -> bool {
+        let id = StreamId::from_varint(Self::vi(sid));
+        let mut request = ops::Request::default();
+        request.reset(application::Error::new(error).expect("application error code"));
+        let mut ctx = ConnectionApiCallContext::from_wakeup_handle(&self.handle);
+        self.manager
+            .poll_request(id, &mut ctx, &mut request, None)
+            .is_ok()
+    }
+
+    /// The application opens a stream; `None` when blocked or failed
+    pub fn open_local(&mut self, bidi: bool) -> Option<u64> {
+        let waker = futures_noop_waker();
+        let cx = Context::from_waker(&waker);
+        let mut token = crate::connection::OpenToken::new();
+        let mut ctx = ConnectionApiCallContext::from_wakeup_handle(&self.handle);
+        match self
+            .manager
+            .poll_open_local_stream(ty(bidi), &mut token, &mut ctx, &cx)
+        {
+            Poll::Ready(Ok(id)) => Some(id.as_varint().as_u64()),
+            _ => None,
+        }
+    }
+
+    /// The application accepts a peer-initiated stream, if one is pending
+    pub fn accept(&mut self, bidi: bool) -> Option<u64> {
+        let waker = futures_noop_waker();
+        let cx = Context::from_waker(&waker);
+        match self.manager.poll_accept(Some(ty(bidi)), &cx) {
+            Poll::Ready(Ok(Some(id))) => Some(id.as_varint().as_u64()),
+            _ => None,
+        }
+    }
+
+    /// One packet: everything the manager wants to send; returns the packet number used
+    pub fn transmit(&mut self) -> (u64, Vec<Written>) {
+        let n = self.next_pn;
+        self.next_pn += 1;
+        let mut rec = Recorder {
+            now: self.now,
+            packet_number: pn(n),
+            local: self.local,
+            frames: vec![],
+        };
+        let _ = self.manager.on_transmit(&mut rec);
+        (n, rec.frames)
+    }
+
+    pub fn ack(&mut self, lo: u64, hi: u64) {
+        let range = PacketNumberRange::new(pn(lo), pn(hi.max(lo)));
+        self.manager.on_packet_ack(&range);
+    }
+
+    pub fn loss(&mut self, lo: u64, hi: u64) {
+        let range = PacketNumberRange::new(pn(lo), pn(hi.max(lo)));
+        self.manager.on_packet_loss(&range);
+    }
+
+    pub fn on_timeout(&mut self) {
+        self.manager.on_timeout(self.now);
+    }
+
+    /// Whether the manager has been closed (a rejected frame closes it)
+    pub fn is_closed(&self) -> bool {
+        self.manager.close_reason().is_some()
+    }
+
+    /// Total connection-level credit charged so far (`incoming_bytes_progressed`)
+    pub fn incoming_bytes_progressed(&self) -> u64 {
+        self.manager.incoming_bytes_progressed().as_u64()
+    }
+}
+
+fn futures_noop_waker() -> core::task::Waker {
+    use core::task::{RawWaker, RawWakerVTable, Waker};
+    fn clone(_: *const ()) -> RawWaker {
+        RawWaker::new(core::ptr::null(), &VTABLE)
+    }
+    fn noop(_: *const ()) {}
+    static VTABLE: RawWakerVTable = RawWakerVTable::new(clone, noop, noop, noop);
+    unsafe { Waker::from_raw(RawWaker::new(core::ptr::null(), &VTABLE)) }
+}
